@@ -372,6 +372,14 @@ def extract_walk_loops():
     `nextC is None or nextC in keys_cell`. Any other shape (merged loops, for-loops ...) is refused."""
     tree, _ = T.load("mouette/mesh/datatypes/volume.py")
     fn = T.find_def(tree, "VolumeMesh._Connectivity._sort_edge_neighborhoods")
+
+    class _Aug(ast.NodeTransformer):          # `k = k + 1` is `k += 1`
+        def visit_Assign(self, n):
+            if len(n.targets) == 1 and isinstance(n.targets[0], ast.Name) and isinstance(n.value, ast.BinOp) \
+                    and isinstance(n.value.op, (ast.Add, ast.Sub)) and isinstance(n.value.left, ast.Name) and n.value.left.id == n.targets[0].id:
+                return ast.copy_location(ast.AugAssign(n.targets[0], n.value.op, n.value.right), n)
+            return n
+    fn = ast.fix_missing_locations(_Aug().visit(fn))
     loop = next((n for n in fn.body if isinstance(n, ast.For)), None)
     if loop is None: raise TranslateError("no `for e,(A,B) in enumerate(self.mesh.edges)` loop")
     walks, pre = [], []
@@ -397,7 +405,7 @@ def extract_walk_loops():
                 if isinstance(n, ast.If) and isinstance(n.test, ast.BoolOp) and isinstance(n.test.op, ast.Or) \
                         and any(isinstance(b, ast.Break) for b in n.body):
                     d = ast.dump(n.test)
-                    if "Is()" in d and "In()" in d and "keys_cell" in d and "nextC" in d: stop = True
+                    if "Is()" in d and "In()" in d and "keys_cell" in d: stop = True      # `<next cell> is None or <next cell> in keys_cell`
             if set(steps) != {"kf", "kc"} or None in steps.values() or not stop:
                 raise TranslateError("walk body: kf/kc steps or the stop test not recognised")
             walks.append([1 if (restart and {"kc", "kf"} <= zero) else 0, steps["kf"], steps["kc"]])
